@@ -181,8 +181,23 @@ func txState(w *load.World, c *core.Collector, f *ssa.Function, newTx *ssa.Call)
 	}
 	var dbCall *ssa.Call
 	var commits []*ssa.Call
+	var deferred []*ssa.Defer // deferred Commit, directly or inside a deferred function literal
 	for _, b := range f.Blocks {
 		for _, in := range b.Instrs {
+			if d, ok := in.(*ssa.Defer); ok {
+				if ssax.IsMethod(d.Common(), "cache.Transaction", "Commit") && isTx(d.Call.Args[0]) {
+					deferred = append(deferred, d)
+				}
+				if mc, ok := d.Call.Value.(*ssa.MakeClosure); ok && capturesTx(mc) {
+					for _, lb := range mc.Fn.(*ssa.Function).Blocks {
+						for _, li := range lb.Instrs {
+							if lc, ok := li.(*ssa.Call); ok && ssax.IsMethod(lc.Common(), "cache.Transaction", "Commit") {
+								deferred = append(deferred, d)
+							}
+						}
+					}
+				}
+			}
 			call, ok := in.(*ssa.Call)
 			if !ok {
 				continue
@@ -200,6 +215,33 @@ func txState(w *load.World, c *core.Collector, f *ssa.Function, newTx *ssa.Call)
 	if dbCall == nil {
 		c.Add("TXSTATE", "tx:"+key, core.Undecided, w.At(newTx), "no storage transaction whose callback uses this cache transaction", props...)
 		return
+	}
+	// the cache transaction must not be committed inside the storage callback: its write locks
+	// have to outlive the storage commit (or rollback)
+	if mc, ok := dbCall.Call.Args[0].(*ssa.MakeClosure); ok {
+		inner := ""
+		var walk func(g *ssa.Function, depth int)
+		walk = func(g *ssa.Function, depth int) {
+			if depth > 3 {
+				return
+			}
+			for _, b := range g.Blocks {
+				for _, in := range b.Instrs {
+					if ci, ok := in.(ssa.CallInstruction); ok && ssax.IsMethod(ci.Common(), "cache.Transaction", "Commit") {
+						inner = w.At(in)
+					}
+					if m2, ok := in.(*ssa.MakeClosure); ok {
+						walk(m2.Fn.(*ssa.Function), depth+1)
+					}
+				}
+			}
+		}
+		walk(mc.Fn.(*ssa.Function), 0)
+		if inner != "" {
+			c.Add("TXSTATE", "commit-after-storage:"+key, core.Violation, inner, "the cache transaction is committed inside the storage callback: the cache write locks are released, and the caches handed to other transactions, before the storage transaction has committed or rolled back", props...)
+		} else {
+			c.Add("TXSTATE", "commit-after-storage:"+key, core.OK, w.At(dbCall), "", props...)
+		}
 	}
 	errV := ssa.Value(dbCall)
 	nonNil, isNil := ssax.NilTests(f, errV)
@@ -281,6 +323,78 @@ func txState(w *load.World, c *core.Collector, f *ssa.Function, newTx *ssa.Call)
 		return core.Undecided, "Commit argument is neither a constant confined to the matching branch nor a test of the storage transaction's error"
 	}
 	bad := false
+	for _, d := range deferred {
+		if ssax.IsMethod(d.Common(), "cache.Transaction", "Commit") {
+			// `defer tx.Commit(x)`: x is evaluated when the defer statement runs
+			arg := d.Call.Args[1]
+			if flag, isConst := ssax.ConstBool(arg); isConst {
+				if !flag {
+					c.Add("TXSTATE", "commit-flag:"+key, core.Violation, w.At(d), "a deferred Commit(false) runs on every exit: the caches of a failed storage transaction are never scrapped", props...)
+					bad = true
+				}
+				continue
+			}
+			if !ssax.Precedes(dbCall, d) {
+				c.Add("TXSTATE", "commit-flag:"+key, core.Violation, w.At(d), "the argument of the deferred Commit is evaluated at the defer statement, before the storage transaction has run: it can never say that the transaction failed", props...)
+				bad = true
+				continue
+			}
+			if v, msg := flagVerdict(arg, d.Block(), 0); v != core.OK {
+				c.Add("TXSTATE", "commit-flag:"+key, v, w.At(d), msg, props...)
+				bad = true
+			}
+			continue
+		}
+		// `defer func() { tx.Commit(err != nil) }()`: the literal must test the cell that receives the transaction's error
+		mc := d.Call.Value.(*ssa.MakeClosure)
+		lit := mc.Fn.(*ssa.Function)
+		okLit := false
+		why := "the deferred function's Commit argument is not a test of the storage transaction's error"
+		for _, lb := range lit.Blocks {
+			for _, li := range lb.Instrs {
+				lc, ok := li.(*ssa.Call)
+				if !ok || !ssax.IsMethod(lc.Common(), "cache.Transaction", "Commit") {
+					continue
+				}
+				bo, ok := lc.Call.Args[1].(*ssa.BinOp)
+				if !ok || bo.Op != token.NEQ {
+					continue
+				}
+				side := bo.X
+				if ssax.IsNilConst(bo.X) {
+					side = bo.Y
+				} else if !ssax.IsNilConst(bo.Y) {
+					continue
+				}
+				ld, ok := side.(*ssa.UnOp)
+				if !ok || ld.Op != token.MUL {
+					continue
+				}
+				fv, ok := ld.X.(*ssa.FreeVar)
+				if !ok {
+					continue
+				}
+				for i, x := range lit.FreeVars {
+					if x != fv || i >= len(mc.Bindings) {
+						continue
+					}
+					cell, ok := mc.Bindings[i].(*ssa.Alloc)
+					if !ok {
+						continue
+					}
+					for _, r := range *cell.Referrers() {
+						if st, ok := r.(*ssa.Store); ok && st.Addr == cell && st.Val == errV {
+							okLit = true
+						}
+					}
+				}
+			}
+		}
+		if !okLit {
+			c.Add("TXSTATE", "commit-flag:"+key, core.Undecided, w.At(d), why, props...)
+			bad = true
+		}
+	}
 	for _, cm := range commits {
 		if v, d := flagVerdict(cm.Call.Args[1], cm.Block(), 0); v != core.OK {
 			c.Add("TXSTATE", "commit-flag:"+key, v, w.At(cm), d, props...)
@@ -304,6 +418,11 @@ func txState(w *load.World, c *core.Collector, f *ssa.Function, newTx *ssa.Call)
 			okc := false
 			for _, cm := range commits {
 				if ssax.Precedes(cm, ret) {
+					okc = true
+				}
+			}
+			for _, d := range deferred {
+				if ssax.Precedes(d, ret) {
 					okc = true
 				}
 			}
